@@ -1803,6 +1803,14 @@ evhttp_parse_response_line(struct evhttp_request *req, char *line)
 	if (evhttp_parse_http_version(protocol, req) < 0)
 		return (-1);
 
+	/* status-code = 3DIGIT (RFC 9112 4); atoi() would also take white
+	 * space, a sign, fewer or more digits and trailing garbage */
+	if (!EVUTIL_ISDIGIT_(number[0]) || !EVUTIL_ISDIGIT_(number[1]) ||
+	    !EVUTIL_ISDIGIT_(number[2]) || number[3] != '\0') {
+		event_debug(("%s: bad response code \"%s\"",
+			__func__, number));
+		return (-1);
+	}
 	req->response_code = atoi(number);
 	if (!evhttp_valid_response_code(req->response_code)) {
 		event_debug(("%s: bad response code \"%s\"",
